@@ -46,7 +46,7 @@ def judge(ctx, cases, results, verdicts_by_dialect):
                 if ctx.cov['drift'] <= 3:
                     ctx.note('trace of a rejected input is not a SlyDriver behaviour (drift): %r [%s]' % (sql[:80], d))
             continue
-        phase, flags = verdict
+        phase, flags = verdict[0], verdict[1]
         bad = [f for f in flags if f in ('ShiftAfterError', 'AcceptAfterError', 'ShiftNotNextInputToken',
                                          'ReduceNotOnStackTop', 'AcceptNotWholeInput', 'NoSilentDrop',
                                          'ShiftedIsPrefix')]
